@@ -117,6 +117,22 @@ def table_correspondence(ctx, out, src, desc):
     real = f"{' '.join(rows)} | {' '.join(str(spec.FIELDS.index(c)) for c in h.stored)} | {n_arrays}"
     if ans != real:
         ctx.corr_fail('Model.Headers/classify', req[:200], ans[:300], real[:300], desc)
+        return
+    # K: Model/Header.putTable (the byte image of those rows at 980 … 2047) vs the bytes the converter wrote
+    mrows = []
+    for i, w in enumerate(ans.split(' | ')[0].split()):
+        c_, d_ = w.split(':')
+        mrows.append(f'{spec.FIELDS[i]}:{c_}:{spec.FIELDS[int(d_) - 1] if int(d_) > 0 else 0}')
+    table_bytes(ctx, m, mrows, raw, desc)
+
+
+def table_bytes(ctx, m, rows, raw, desc):
+    ctx.stats['corr_requests'] += 1
+    enc = m.ask('tblenc ' + ' '.join(rows))
+    if enc != raw[980:2048].hex():
+        bad = next((i for i in range(0, 2136, 24) if enc[i:i + 24] != raw[980:2048].hex()[i:i + 24]), None)
+        ctx.corr_fail('Model.Header/putTable', 'tblenc ' + ' '.join(rows)[:160], f'row {None if bad is None else bad // 24}: {enc[bad:bad + 24] if bad is not None else enc[:24]}',
+                      f'{raw[980:2048].hex()[bad:bad + 24] if bad is not None else ""}', desc)
 
 
 def segy_route(ctx, rng, k):
@@ -257,6 +273,9 @@ def numpy_route(ctx, rng, k):
         return
     if extra is not None:
         ctx.stats['numpy_key_beyond_table_accepted'] += 1
+    elif MODEL.get('m') is not None:
+        given = set(int(c) for c in want)
+        table_bytes(ctx, MODEL['m'], [f'{c}:0:{c if c in given else 0}' for c in spec.FIELDS], open(out, 'rb').read(2048), desc)
     for p in spec.conformance_problems(out):
         ctx.fail('written file not conformant: ' + p, desc)
     try:
